@@ -707,10 +707,16 @@ func (w *World) declareUninterp(u *Uninterp) {
 	w.Reg.uninterp = append(w.Reg.uninterp, line)
 }
 
-var axiomCache []string
+type axiomText struct {
+	text  string
+	pkg   string // package path of the contract file that states it
+	local bool   // name starts with "local.": used only for functions of that package
+}
+
+var axiomCache []axiomText
 var axiomDone bool
 
-func (w *World) axiomTexts() []string {
+func (w *World) axiomTexts() []axiomText {
 	if axiomDone {
 		return axiomCache
 	}
@@ -724,7 +730,11 @@ func (w *World) axiomTexts() []string {
 				}
 			}()
 			t := env.eval(a.Body)
-			axiomCache = append(axiomCache, t.S)
+			at := axiomText{text: t.S, local: strings.HasPrefix(a.Name, "local.")}
+			if a.Pkg != nil {
+				at.pkg = a.Pkg.PkgPath
+			}
+			axiomCache = append(axiomCache, at)
 		}()
 	}
 	return axiomCache
